@@ -25,6 +25,7 @@ EvalClauses(e) ==
                           => \A i \in DOMAIN e.x : e.out[i] = want[i],
   C13_UserSeesApproachOrder |-> (e.raised = "") => e.seen = SeenByUser(e.x),
   C13_InputsUnchanged |-> e.inputs_same,
+  C13_ModelStableAfterResidual |-> e.stable,
   C13_DefaultResiduals |->
       (e.raised = "" /\ Len(e.res) = Len(e.x))
         => \A i \in DOMAIN e.x :
